@@ -31,6 +31,11 @@ ENTRY = dict(
             "several filter objects built around the same callback are independent": "theorem (instances_independent: each object filters its own call sequence as a fresh filter, however the calls interleave) + correspondence (the same factory expression evaluated 2-3 times around ONE callback object, coinciding streams; per-object judge C20.spec)",
             "the delivered object IS the object passed in (pass-through filters)": "correspondence (identity observed by the harness; values: theorem passThrough_sublist)",
             "chains of two filters": "theorem (chain_delivered, chain_throttle_spacing, holds_chain)",
+            "Filter.__eq__ / unhashable: a filter equals filters and callables around the same callback, unsubscribe(name, cb) finds the first such entry":
+                "by construction of the hand model `FObj.eqMethod` (Model/FiltersEq.lean): C20Table.eq_ignores_kind / eq_callable / eq_other are `rfl`, eq_refl / eq_symm / eq_trans are Nat equality — readings of the model, NOT theorems about filters.py; "
+                "content = theorem every_factory_returns_a_plain_filter (kernel-checked probe table: every factory's object uses Filter.__eq__, is unhashable, equals its own callback) + public_classes_pinned "
+                "+ findEntry_first (entry i matches AND no earlier entry does) / findEntry_none over the model's == "
+                "+ correspondence (harness/c20.py eq_probe: real filter objects vs filters / callables / non-callables in both operand orders, list.remove, `in`)",
             "tolerance 0.1 = source constant": "theorem over the translated constant (tolerance_is_one_tenth)",
             "values are snapshots: a container changed in place by its owner and passed again as the same object": "correspondence (mode `inplace`: ONE list / dict object, empty when first delivered or cleared later, singleton, nested list of lists / dict of lists, changed by clear / append / del / item and slice assignment and passed again; every filter and chains; the model sees the content at the time of each call). Flat containers: holds; an INNER container changed in place: open finding F10 (shallow copy)",
             "a live Parameter changed by its owner between deliveries (Parameter.update by a report, the real Parameter.set() by the client)": "correspondence (section setapi: one real Number parameter on a stub device, "
